@@ -331,7 +331,7 @@ func runC04(c *core.Ctx) {
 		}
 		var delimF *types.Var
 		for _, f := range fieldsOfNamed(fc.t) {
-			if isByteSliceish(f.Type()) && strings.Contains(strings.ToLower(f.Name()), "delim") {
+			if isPlainByteSlice(f.Type()) && p.DeclMethod(fc.t, "HandleWrite") != nil && fieldUsedInBoth(p, fc, f) {
 				delimF = f
 			}
 		}
@@ -544,7 +544,10 @@ func runC04R2(c *core.Ctx, codecs []*frameCodec) {
 				return true
 			}
 			id, ok := be.X.(*ast.Ident)
-			if !ok || !strings.Contains(strings.ToLower(id.Name), "lengthfieldlength") {
+			if !ok {
+				return true
+			}
+			if obj, isVar := pk.TypesInfo.Uses[id].(*types.Var); !isVar || !isIntT(obj.Type()) {
 				return true
 			}
 			if tv, ok := pk.TypesInfo.Types[be.Y]; ok && tv.Value != nil {
@@ -616,7 +619,7 @@ func runC04R2(c *core.Ctx, codecs []*frameCodec) {
 			// both bounded by the same max field
 			var maxF *types.Var
 			for _, f := range fieldsOfNamed(fc.t) {
-				if strings.Contains(strings.ToLower(f.Name()), "max") {
+				if isIntT(f.Type()) {
 					maxF = f
 				}
 			}
@@ -635,7 +638,7 @@ func runC04R2(c *core.Ctx, codecs []*frameCodec) {
 		}
 		var delimF *types.Var
 		for _, f := range fieldsOfNamed(fc.t) {
-			if isByteSliceish(f.Type()) && strings.Contains(strings.ToLower(f.Name()), "delim") {
+			if isPlainByteSlice(f.Type()) && p.DeclMethod(fc.t, "HandleWrite") != nil && fieldUsedInBoth(p, fc, f) {
 				delimF = f
 			}
 		}
@@ -709,4 +712,45 @@ func isLenOrCap(v ssa.Value) bool {
 	}
 	_, ok = core.IsBuiltinCall(call, "cap")
 	return ok
+}
+
+func isPlainByteSlice(t types.Type) bool {
+	sl, ok := t.Underlying().(*types.Slice)
+	if !ok {
+		return false
+	}
+	b, ok := sl.Elem().Underlying().(*types.Basic)
+	return ok && b.Kind() == types.Byte
+}
+
+// fieldUsedInBoth: the []byte configuration field is read by both the decoder and the encoder (the delimiter role).
+func fieldUsedInBoth(p *core.Prog, fc *frameCodec, f *types.Var) bool {
+	uses := func(fn *ssa.Function) bool {
+		u := false
+		if fn == nil {
+			return false
+		}
+		core.AllInstrs(fn, func(in ssa.Instruction) {
+			if ld, ok := in.(*ssa.UnOp); ok {
+				if fv, _ := core.FieldOf(ld); fv == f {
+					u = true
+				}
+			}
+		})
+		return u
+	}
+	// a read-side scratch buffer is written by the decoder (Read into it); the delimiter is only read
+	written := false
+	if fc.read != nil {
+		core.AllInstrs(fc.read, func(in ssa.Instruction) {
+			if cc := core.CallCommon(in); cc != nil && cc.IsInvoke() && cc.Method.Name() == "Read" {
+				for _, a := range cc.Args {
+					if fv, _ := core.FieldOf(core.Unwrap(a)); fv == f {
+						written = true
+					}
+				}
+			}
+		})
+	}
+	return uses(fc.read) && uses(fc.write) && !written
 }
